@@ -359,7 +359,8 @@ theorem table_shape :
     Gen.Dispatch.dispatchedExpectingReplyAnswered = true ∧
     Gen.Dispatch.dispatchedNoReplySilent = true ∧
     Gen.Dispatch.lookupFailureAnsweredWhenNoReply = true ∧
-    Gen.Dispatch.managedFailureAnswered = true := by
+    Gen.Dispatch.managedFailureAnswered = true ∧
+    Gen.Dispatch.escapeCoversInvalidName = true := by
   decide
 
 /-- "The caller's unique name when it asks for it": a method asks for it iff its positional
